@@ -428,6 +428,41 @@ func c02(c *Ctx) {
 				if (a0 == "l.input[0:(l.pos-1)]" || a0 == "l.input[:(l.pos-1)]") && strings.HasPrefix(a1, "l.input[l.pos:") {
 					ok = true
 				}
+				// the same with the offsets computed through temporaries: append(l.input[:pos+a], l.input[pos+b:]...)
+				// with a == -1 and b == 0
+				var posOff func(v ssa.Value, d int) (int64, bool)
+				posOff = func(v ssa.Value, d int) (int64, bool) {
+					if d > 4 {
+						return 0, false
+					}
+					if pathOf(v) == "l.pos" {
+						return 0, true
+					}
+					if b, isB := v.(*ssa.BinOp); isB && (b.Op == token.ADD || b.Op == token.SUB) {
+						if k, isK := constInt(b.Y); isK {
+							if o, okX := posOff(b.X, d+1); okX {
+								if b.Op == token.SUB {
+									k = -k
+								}
+								return o + k, true
+							}
+						}
+					}
+					return 0, false
+				}
+				s0, is0 := cl.Call.Args[0].(*ssa.Slice)
+				s1, is1 := stripConv(cl.Call.Args[1]).(*ssa.Slice)
+				if is0 && is1 && pathOf(s0.X) == "l.input" && pathOf(s1.X) == "l.input" && s0.High != nil && s1.Low != nil && s1.High == nil {
+					lowZero := s0.Low == nil
+					if k, isK := constInt(s0.Low); s0.Low != nil && isK && k == 0 {
+						lowZero = true
+					}
+					h, okH := posOff(s0.High, 0)
+					lo, okL := posOff(s1.Low, 0)
+					if lowZero && okH && okL && h == -1 && lo == 0 {
+						ok = true
+					}
+				}
 			}
 			if isCall(cl, "builtin copy") {
 				a0, a1 := pathOf(cl.Call.Args[0]), pathOf(cl.Call.Args[1])
